@@ -24,6 +24,26 @@ Event packet (U3V 1.x "Event"): same header with magic 0x45563355 ("U3VE"), flag
 command id 0x0C00 at 6; the SCD is a sequence of
   event size u16 | event id u16 | timestamp u64 | data (size - 12 bytes)
 where size = 0 means "single event: the data extends to the end of the SCD".
+
+Sources of the tables (IMPORTANT — provenance).  The standard texts are not available in
+the offline sandbox; the tables below are transcribed from memory of
+  * GenICam GenCP "Generic Control Protocol", version 1.2 (EMVA), chapter "Status Codes":
+    the bit anatomy (bit 15 severity, bits 14:13 namespace, bits 12:0 code) and the
+    GENCP_* values 0x0000, 0x8001-0x8007, 0x800B, 0x800E, 0x800F, 0x8FFF;
+  * USB3 Vision specification, version 1.0.1 (AIA/A3), control-protocol status codes
+    U3V_STATUS_* 0xA001-0xA004 (+ 0xA005, see below), acknowledge command ids 0x0801..0x0809
+    and the event command id 0x0C00;
+and cross-checked against the status lists of two other implementations as I know them
+(aravis `arvuvcp.h`, the NI/Linux u3v driver).  Clause / table numbers are NOT verified.
+Entries that this cross-check could NOT confirm (listed as assumptions in props/C08.json):
+  * 0xA005 (here EI_ENDPOINT_HALTED, cameleon's `EventEndpointHalted`): the other
+    implementations stop at 0xA004 and list 0xA100 DATA_DISCARDED (a stream status) instead;
+  * 0x8008 LOCAL_PROBLEM, 0x8009 MSG_MISMATCH, 0x800A INVALID_PROTOCOL (and 0x800C/0x800D)
+    appear in aravis' list (GigE-Vision heritage) but are treated here — and by the code —
+    as *not defined* for GenCP: an acknowledge carrying them is refused with InvalidPacket.
+If the standard defines differently, `statusClass` (and the code's tables, which
+`gen_tables_agree` shows equal to it) must change; the "every conforming packet is accepted"
+clause is exactly as good as this transcription.
 -/
 import CamVerif.Spec.GenCP
 namespace CamVerif.Spec.GenCPAck
@@ -120,6 +140,12 @@ def dataOf (bs : Bytes) : Bytes := slice bs 12 (scdLenOf bs)
 def reservedOf (bs : Bytes) : Nat := uintAt bs 12 2
 /-- `length written` of a WriteMemAck / `timeout` (ms) of a PendingAck -/
 def valueOf (bs : Bytes) : Nat := uintAt bs 14 2
+/-- Reference decoding of the WriteMemAck / PendingAck SCD: the four bytes
+`reserved u16 = 0 | value u16` must lie inside the SCD the header declares
+(`4 ≤ scd_len`) and inside the buffer; otherwise the packet has no such view. -/
+def valueViewOf (bs : Bytes) : Option Nat :=
+  if 4 ≤ scdLenOf bs ∧ 16 ≤ bs.length ∧ reservedOf bs = 0 then some (valueOf bs) else none
+
 /-- i-th entry of a WriteMemStackedAck -/
 def stackedReservedOf (bs : Bytes) (i : Nat) : Nat := uintAt bs (12 + 4 * i) 2
 def stackedLengthOf (bs : Bytes) (i : Nat) : Nat := uintAt bs (12 + 4 * i + 2) 2
